@@ -582,9 +582,9 @@ def bytesAll : List (Except PyErr Bytes) → Except PyErr (List Bytes)
   | .error e :: _ => .error e
 
 /-- `RVASpec.write`.  Every magnitude is serialised big-endian with at least two bytes and
-then `ljust`ed with NUL bytes on the right to the width of the widest one — for a
-big-endian number that multiplies a narrower value by 256 per added byte (followed here;
-see `Props/C12.lean`, `rva_mixed_width_counterexample`). -/
+then `rjust`ed with NUL bytes on the left to the width of the widest one (the code used
+`ljust` before the repair recorded in known_findings.json; see `Props/C12.lean`,
+`rva_mixed_width_instance`). -/
 def writeRva (maxValues : Nat) (v : Val) : Except PyErr Bytes :=
   match v with
   | .list vs =>
@@ -598,7 +598,7 @@ def writeRva (maxValues : Nat) (v : Val) : Except PyErr Bytes :=
         | .ok bvs =>
           let maxBytes := bvs.foldl (fun m b => max m b.length) 0
           match bchr (rvaFlags vals rvaSignIdx 0), bchr (maxBytes * 8 : Nat) with
-          | .ok f, .ok bits => .ok (f ++ bits ++ (bvs.map (fun b => b ++ zeros (maxBytes - b.length))).flatten)
+          | .ok f, .ok bits => .ok (f ++ bits ++ (bvs.map (fun b => zeros (maxBytes - b.length) ++ b)).flatten)
           | .error e, _ => .error e
           | _, .error e => .error e
   | _ => .error .type_
@@ -742,7 +742,8 @@ def readSpec (sub : Hdr → Bytes → Except PyErr (List Val × Bytes)) (h : Hdr
   | .volAdjs => .ok (readVolAdjs data)
   | .aspiIndex => readAspi c data
   | .frames =>
-    match sub h data with
+    -- the enclosing frame / tag has been de-unsynchronised already: flag cleared for the sub-frames
+    match sub { h with unsynch := false } data with
     | .ok (fs, r) => .ok (.list fs, r)
     | .error e => .error e
   | .rva m => readRva m data
